@@ -293,7 +293,7 @@ impl Prop for C07 {
         let hs: Vec<(i64, i64)> = if quick {
             vec![(0, 2), (1, 2), (2, 1), (3, 2), (4, 2), (5, 1), (8, 1)]
         } else {
-            vec![(0, 3), (1, 3), (2, 2), (3, 3), (4, 3), (5, 2), (6, 2), (7, 3), (8, 2)]
+            vec![(0, 3), (1, 3), (2, 2), (3, 3), (4, 3), (5, 2), (6, 2), (7, 3), (8, 1)]
         };
         v.push(Scope::new("pair-histories", "every ordered pair (X, Y) of a 100-drawing alphabet (the quadrants of every catalogue circle, rounded tabs, the history alphabet): Y converted immediately after X in one process, compared with Y alone in a fresh process", |f| {
             for x in 0..pair_alphabet().len() {
